@@ -1,2 +1,383 @@
-/* placeholder; replaced below */
-int shim_placeholder;
+/* LD_PRELOAD syscall-seam shim for Tier B (the shipped customasm binary in a
+ * fresh process). It owns getrandom, clock_gettime and the file calls std
+ * uses (statx/stat, open/open64/openat, read, write, close), logs every
+ * intercepted file call and overrides outcomes according to a fault plan.
+ *
+ * Environment:
+ *   SHIM_ROOT   absolute path of the scratch root; only paths that resolve
+ *               under it get fault treatment (everything is logged)
+ *   SHIM_LOG    file to append the event log to
+ *   SHIM_PLAN   newline-separated "<kind> <absolute path>" entries;
+ *               path "*" = every path under the root
+ *   SHIM_KEYS   32 hex digits returned by getrandom (hash keys)
+ *   SHIM_CLOCK  seconds returned by clock_gettime (optional)
+ *
+ * Permanent kinds : probe-enoent open-eacces open-emfile read-eio
+ *                   create-eacces create-erofs create-enoent
+ *                   write-enospc write-eio write-short-enospc
+ * Masked kinds    : eintr-read eintr-write short-read short-write stat-fd-fail
+ */
+#define _GNU_SOURCE
+#include <dlfcn.h>
+#include <errno.h>
+#include <fcntl.h>
+#include <limits.h>
+#include <stdarg.h>
+#include <stdio.h>
+#include <stdlib.h>
+#include <string.h>
+#include <sys/stat.h>
+#include <sys/syscall.h>
+#include <sys/types.h>
+#include <time.h>
+#include <unistd.h>
+
+#define MAXFD 256
+#define MAXPLAN 64
+
+struct plan_entry { char kind[32]; char path[PATH_MAX]; int fired; };
+
+static int inited = 0;
+static char root[PATH_MAX];
+static size_t root_len = 0;
+static int log_fd = -1;
+static struct plan_entry plan[MAXPLAN];
+static int nplan = 0;
+static unsigned char keys[16];
+static int have_keys = 0;
+static long long clock_sec = -1;
+static unsigned long seq = 0;
+
+/* per-fd state for files opened under the root */
+static char fd_path[MAXFD][PATH_MAX];
+static int fd_live[MAXFD];
+static int fd_is_out[MAXFD];
+static int fd_eintr_toggle[MAXFD];
+static long fd_written[MAXFD];
+
+static long raw_write(int fd, const void *buf, size_t n) { return syscall(SYS_write, fd, buf, n); }
+static long raw_read(int fd, void *buf, size_t n) { return syscall(SYS_read, fd, buf, n); }
+
+static int hexval(char c) {
+    if (c >= '0' && c <= '9') return c - '0';
+    if (c >= 'a' && c <= 'f') return c - 'a' + 10;
+    if (c >= 'A' && c <= 'F') return c - 'A' + 10;
+    return 0;
+}
+
+static void init(void) {
+    if (inited) return;
+    inited = 1;
+    const char *r = getenv("SHIM_ROOT");
+    if (r) { strncpy(root, r, sizeof(root) - 1); root_len = strlen(root); }
+    const char *l = getenv("SHIM_LOG");
+    if (l) log_fd = (int)syscall(SYS_openat, AT_FDCWD, l, O_WRONLY | O_APPEND | O_CREAT | O_CLOEXEC, 0644);
+    const char *k = getenv("SHIM_KEYS");
+    if (k && strlen(k) >= 32) {
+        for (int i = 0; i < 16; i++) keys[i] = (unsigned char)(hexval(k[2 * i]) * 16 + hexval(k[2 * i + 1]));
+        have_keys = 1;
+    }
+    const char *c = getenv("SHIM_CLOCK");
+    if (c && *c) clock_sec = atoll(c);
+    const char *p = getenv("SHIM_PLAN");
+    if (p) {
+        while (*p && nplan < MAXPLAN) {
+            const char *nl = strchr(p, '\n');
+            size_t len = nl ? (size_t)(nl - p) : strlen(p);
+            const char *sp = memchr(p, ' ', len);
+            if (sp) {
+                size_t kl = (size_t)(sp - p);
+                size_t pl = len - kl - 1;
+                if (kl < sizeof(plan[0].kind) && pl < PATH_MAX) {
+                    memcpy(plan[nplan].kind, p, kl); plan[nplan].kind[kl] = 0;
+                    memcpy(plan[nplan].path, sp + 1, pl); plan[nplan].path[pl] = 0;
+                    plan[nplan].fired = 0;
+                    nplan++;
+                }
+            }
+            if (!nl) break;
+            p = nl + 1;
+        }
+    }
+}
+
+static void logev(const char *op, const char *path, const char *resolved, int fd, long ret, int err, int fault) {
+    if (log_fd < 0) return;
+    char buf[2 * PATH_MAX + 128];
+    int n = snprintf(buf, sizeof(buf), "%lu|%s|%s|%s|%d|%ld|%d|%d\n", ++seq, op, path ? path : "", resolved ? resolved : "", fd, ret, err, fault);
+    if (n > 0) raw_write(log_fd, buf, (size_t)n);
+}
+
+/* Absolute path a name denotes, through the kernel's own resolution where
+ * the file (or its directory) exists. */
+static void resolve_at(int dirfd, const char *path, char *out) {
+    char tmp[PATH_MAX];
+    out[0] = 0;
+    if (!path) return;
+    if (dirfd != AT_FDCWD && path[0] != '/') { strncpy(out, path, PATH_MAX - 1); out[PATH_MAX - 1] = 0; return; }
+    int saved = errno;
+    if (realpath(path, tmp)) { strcpy(out, tmp); errno = saved; return; }
+    /* not there: resolve the directory part, keep the last component */
+    char copy[PATH_MAX];
+    strncpy(copy, path, sizeof(copy) - 1); copy[sizeof(copy) - 1] = 0;
+    size_t len = strlen(copy);
+    while (len > 1 && copy[len - 1] == '/') copy[--len] = 0;
+    char *slash = strrchr(copy, '/');
+    const char *base = slash ? slash + 1 : copy;
+    char dir[PATH_MAX];
+    if (slash) {
+        if (slash == copy) strcpy(dir, "/");
+        else { *slash = 0; strcpy(dir, copy); }
+    } else strcpy(dir, ".");
+    if (strcmp(base, "..") != 0 && strcmp(base, ".") != 0 && realpath(dir, tmp)) {
+        if (strcmp(tmp, "/") == 0) snprintf(out, PATH_MAX, "/%s", base);
+        else snprintf(out, PATH_MAX, "%s/%s", tmp, base);
+    } else {
+        /* lexical fallback */
+        if (path[0] == '/') strncpy(out, path, PATH_MAX - 1);
+        else {
+            char cwd[PATH_MAX];
+            if (!getcwd(cwd, sizeof(cwd))) cwd[0] = 0;
+            snprintf(out, PATH_MAX, "%s/%s", cwd, path);
+        }
+        out[PATH_MAX - 1] = 0;
+    }
+    errno = saved;
+}
+
+static int under_root(const char *abs) {
+    return root_len > 0 && strncmp(abs, root, root_len) == 0 && (abs[root_len] == '/' || abs[root_len] == 0);
+}
+
+static int plan_hit(const char *kind, const char *abs) {
+    for (int i = 0; i < nplan; i++) {
+        if (strcmp(plan[i].kind, kind) != 0) continue;
+        if (strcmp(plan[i].path, "*") == 0 ? under_root(abs) : strcmp(plan[i].path, abs) == 0) {
+            plan[i].fired++;
+            return 1;
+        }
+    }
+    return 0;
+}
+
+/* ------------------------------------------------------------ environment */
+
+ssize_t getrandom(void *buf, size_t len, unsigned int flags) {
+    init();
+    if (!have_keys) return syscall(SYS_getrandom, buf, len, flags);
+    unsigned char *p = buf;
+    for (size_t i = 0; i < len; i++) p[i] = keys[i % 16];
+    return (ssize_t)len;
+}
+
+int clock_gettime(clockid_t clk, struct timespec *ts) {
+    init();
+    if (clock_sec < 0) return (int)syscall(SYS_clock_gettime, clk, ts);
+    if (ts) { ts->tv_sec = (time_t)clock_sec; ts->tv_nsec = 0; }
+    return 0;
+}
+
+/* ------------------------------------------------------------------ probes */
+
+/* glibc declares statx with __nonnull((2,5)) and gcc then deletes NULL checks;
+ * std probes availability with statx(0, NULL, 0, mask, NULL), so the
+ * function is defined under another name and exported through an alias. */
+int shim_statx(int dirfd, const char *path, int flags, unsigned int mask, void *st) {
+    init();
+    if (path && path[0] == 0 && (flags & AT_EMPTY_PATH)) {
+        /* fstat-like: size hint for read_to_end */
+        if (dirfd >= 0 && dirfd < MAXFD && fd_live[dirfd] && plan_hit("stat-fd-fail", fd_path[dirfd])) {
+            logev("fstat", "", fd_path[dirfd], dirfd, -1, EIO, 1);
+            errno = EIO; return -1;
+        }
+        return (int)syscall(SYS_statx, dirfd, path, flags, mask, st);
+    }
+    char abs[PATH_MAX];
+    resolve_at(dirfd, path, abs);
+    if (under_root(abs) && plan_hit("probe-enoent", abs)) {
+        logev("probe", path, abs, -1, -1, ENOENT, 1);
+        errno = ENOENT; return -1;
+    }
+    long r = syscall(SYS_statx, dirfd, path, flags, mask, st);
+    int e = errno;
+    logev("probe", path, abs, -1, r, r < 0 ? e : 0, 0);
+    errno = e;
+    return (int)r;
+}
+
+static int do_stat(const char *op, const char *path, struct stat *st, int nofollow) {
+    char abs[PATH_MAX];
+    resolve_at(AT_FDCWD, path, abs);
+    if (under_root(abs) && plan_hit("probe-enoent", abs)) {
+        logev(op, path, abs, -1, -1, ENOENT, 1);
+        errno = ENOENT; return -1;
+    }
+    long r = syscall(SYS_newfstatat, AT_FDCWD, path, st, nofollow ? AT_SYMLINK_NOFOLLOW : 0);
+    int e = errno;
+    logev(op, path, abs, -1, r, r < 0 ? e : 0, 0);
+    errno = e;
+    return (int)r;
+}
+
+int stat(const char *path, struct stat *st) { init(); return do_stat("probe", path, st, 0); }
+int stat64(const char *path, struct stat64 *st) { init(); return do_stat("probe", path, (struct stat *)st, 0); }
+int lstat(const char *path, struct stat *st) { init(); return do_stat("probe", path, st, 1); }
+int lstat64(const char *path, struct stat64 *st) { init(); return do_stat("probe", path, (struct stat *)st, 1); }
+
+/* -------------------------------------------------------------------- open */
+
+static int do_open(int dirfd, const char *path, int flags, mode_t mode) {
+    char abs[PATH_MAX];
+    resolve_at(dirfd, path, abs);
+    int creating = (flags & O_CREAT) || ((flags & O_ACCMODE) != O_RDONLY);
+    int in_root = under_root(abs);
+    if (in_root) {
+        int err = 0;
+        if (creating) {
+            if (plan_hit("create-eacces", abs)) err = EACCES;
+            else if (plan_hit("create-erofs", abs)) err = EROFS;
+            else if (plan_hit("create-enoent", abs)) err = ENOENT;
+        } else {
+            if (plan_hit("probe-enoent", abs)) err = ENOENT; /* permanently absent */
+            else if (plan_hit("open-eacces", abs)) err = EACCES;
+            else if (plan_hit("open-emfile", abs)) err = EMFILE;
+        }
+        if (err) {
+            logev(creating ? "create" : "open", path, abs, -1, -1, err, 1);
+            errno = err; return -1;
+        }
+    }
+    long r = syscall(SYS_openat, dirfd, path, flags, mode);
+    int e = errno;
+    logev(creating ? "create" : "open", path, abs, (int)r, r, r < 0 ? e : 0, 0);
+    if (r >= 0 && r < MAXFD) {
+        fd_live[r] = 1;
+        fd_is_out[r] = creating;
+        fd_eintr_toggle[r] = 0;
+        fd_written[r] = 0;
+        strncpy(fd_path[r], abs, PATH_MAX - 1);
+        fd_path[r][PATH_MAX - 1] = 0;
+    }
+    errno = e;
+    return (int)r;
+}
+
+int open(const char *path, int flags, ...) {
+    init();
+    mode_t mode = 0;
+    if (flags & (O_CREAT | O_TMPFILE)) { va_list ap; va_start(ap, flags); mode = (mode_t)va_arg(ap, int); va_end(ap); }
+    return do_open(AT_FDCWD, path, flags, mode);
+}
+int open64(const char *path, int flags, ...) {
+    init();
+    mode_t mode = 0;
+    if (flags & (O_CREAT | O_TMPFILE)) { va_list ap; va_start(ap, flags); mode = (mode_t)va_arg(ap, int); va_end(ap); }
+    return do_open(AT_FDCWD, path, flags, mode);
+}
+int openat(int dirfd, const char *path, int flags, ...) {
+    init();
+    mode_t mode = 0;
+    if (flags & (O_CREAT | O_TMPFILE)) { va_list ap; va_start(ap, flags); mode = (mode_t)va_arg(ap, int); va_end(ap); }
+    return do_open(dirfd, path, flags, mode);
+}
+int openat64(int dirfd, const char *path, int flags, ...) {
+    init();
+    mode_t mode = 0;
+    if (flags & (O_CREAT | O_TMPFILE)) { va_list ap; va_start(ap, flags); mode = (mode_t)va_arg(ap, int); va_end(ap); }
+    return do_open(dirfd, path, flags, mode);
+}
+int creat(const char *path, mode_t mode) { init(); return do_open(AT_FDCWD, path, O_CREAT | O_WRONLY | O_TRUNC, mode); }
+int creat64(const char *path, mode_t mode) { init(); return do_open(AT_FDCWD, path, O_CREAT | O_WRONLY | O_TRUNC, mode); }
+
+/* ------------------------------------------------------------- read/write */
+
+ssize_t read(int fd, void *buf, size_t n) {
+    init();
+    if (fd >= 0 && fd < MAXFD && fd_live[fd] && under_root(fd_path[fd])) {
+        const char *abs = fd_path[fd];
+        if (plan_hit("read-eio", abs)) {
+            logev("read", "", abs, fd, -1, EIO, 1);
+            errno = EIO; return -1;
+        }
+        if (plan_hit("eintr-read", abs)) {
+            fd_eintr_toggle[fd] ^= 1;
+            if (fd_eintr_toggle[fd]) {
+                logev("read", "", abs, fd, -1, EINTR, 1);
+                errno = EINTR; return -1;
+            }
+        }
+        size_t want = n;
+        int fault = 0;
+        if (n > 7 && plan_hit("short-read", abs)) { want = 7; fault = 1; }
+        long r = raw_read(fd, buf, want);
+        int e = errno;
+        logev("read", "", abs, fd, r, r < 0 ? e : 0, fault);
+        errno = e;
+        return r;
+    }
+    return raw_read(fd, buf, n);
+}
+
+ssize_t write(int fd, const void *buf, size_t n) {
+    init();
+    if (fd >= 0 && fd < MAXFD && fd_live[fd] && under_root(fd_path[fd])) {
+        const char *abs = fd_path[fd];
+        if (plan_hit("write-enospc", abs)) {
+            logev("write", "", abs, fd, -1, ENOSPC, 1);
+            errno = ENOSPC; return -1;
+        }
+        if (plan_hit("write-eio", abs)) {
+            logev("write", "", abs, fd, -1, EIO, 1);
+            errno = EIO; return -1;
+        }
+        if (plan_hit("write-short-enospc", abs)) {
+            if (fd_written[fd] > 0 || n < 2) {
+                logev("write", "", abs, fd, -1, ENOSPC, 1);
+                errno = ENOSPC; return -1;
+            }
+            long r = raw_write(fd, buf, n / 2);
+            int e = errno;
+            if (r > 0) fd_written[fd] += r;
+            logev("write", "", abs, fd, r, r < 0 ? e : 0, 1);
+            errno = e;
+            return r;
+        }
+        if (plan_hit("eintr-write", abs)) {
+            fd_eintr_toggle[fd] ^= 1;
+            if (fd_eintr_toggle[fd]) {
+                logev("write", "", abs, fd, -1, EINTR, 1);
+                errno = EINTR; return -1;
+            }
+        }
+        size_t want = n;
+        int fault = 0;
+        if (n > 5 && plan_hit("short-write", abs)) { want = 5; fault = 1; }
+        long r = raw_write(fd, buf, want);
+        int e = errno;
+        if (r > 0) fd_written[fd] += r;
+        logev("write", "", abs, fd, r, r < 0 ? e : 0, fault);
+        errno = e;
+        return r;
+    }
+    return raw_write(fd, buf, n);
+}
+
+int close(int fd) {
+    init();
+    if (fd >= 0 && fd < MAXFD && fd_live[fd]) {
+        logev("close", "", fd_path[fd], fd, 0, 0, 0);
+        fd_live[fd] = 0;
+    }
+    return (int)syscall(SYS_close, fd);
+}
+
+__asm__(".globl statx\n.set statx, shim_statx");
+
+__attribute__((destructor)) static void fini(void) {
+    if (log_fd < 0) return;
+    for (int i = 0; i < nplan; i++) {
+        char buf[PATH_MAX + 96];
+        int n = snprintf(buf, sizeof(buf), "F|%s|%s|%d\n", plan[i].kind, plan[i].path, plan[i].fired);
+        if (n > 0) raw_write(log_fd, buf, (size_t)n);
+    }
+}
